@@ -139,6 +139,13 @@ def user_class(cls_name):
         def apply(self, nn_state, samples):
             ls = letters_of(samples)
             self.leaf_calls.append((id(samples), ls))
+            if cls_name == "Spin":
+                # the occupation of one site, written the obvious way: a VIEW of the batch it was given (same
+                # per-sample values as the table says; whoever post-processes a leaf's result must not write into it)
+                n = samples.shape[-1]
+                for j in range(n):
+                    if all(self.table[a] == self.scale * ((a >> (n - 1 - j)) & 1) for a in range(len(self.table))):
+                        return samples[:, j]
             return torch.tensor([self.table[a] for a in ls], dtype=torch.double) / self.scale
         _USER_CLASSES[cls_name] = type(cls_name, (ObservableBase,), dict(__init__=__init__, apply=apply))
     return _USER_CLASSES[cls_name]
@@ -898,6 +905,10 @@ def random_case(rng):
         r = rng.random()
         if r < 0.3:
             atoms.append(builtin_atom(rng.choice(["SigmaZ", "ZZ"]), n, letters))
+        elif r < 0.5:
+            j = rng.randrange(n)                       # Spin(j): value = bit j of the sample (table = scale * bit)
+            atoms.append(user_atom("Spin", [n * ((a >> (n - 1 - j)) & 1) for a in range(letters)],
+                                   nm=rng.choice([NO, "S%d" % j])))
         else:
             atoms.append(user_atom(rng.choice(classes), table(), nm=rng.choice([NO, NO, "E", "SigmaZ"]),
                                    sy=rng.choice([NO, NO, "e"])))
